@@ -63,6 +63,7 @@ def insert_zero(ast, rng):
             t["items"].insert(0, zi())
         if side in ("last", "both"):
             t["items"].append(zi())
+        a["_target"] = (t["k"], t["name"])
         return a, inserted, place
     if place == "only-member":
         e = fresh("zonly")
@@ -94,6 +95,7 @@ def insert_zero(ast, rng):
         item = {"t": "ref", "name": e, "star": rng.random() < 0.5}
     pos = {"item-first": 0, "item-last": len(t["items"])}.get(place, rng.randint(0, len(t["items"])))
     t["items"].insert(pos, item)
+    a["_target"] = (t["k"], t["name"])
     return a, inserted, place
 
 
@@ -167,7 +169,7 @@ def run(st, tier, seed):
         if i % 15 == 4:
             # directed: a `?` region that resolves to 0 nt under a domain-level structure
             b, b2, where = wildcard_zero_pair(rng)
-            inserted, place = [], "beside-wildcard"
+            inserted, place, ast2 = [], "beside-wildcard", None
             res.count("directed:zero-length-wildcard-region-under-domain-structure:" + where)
         else:
             rel = rng.choice(sorted(b.asts))
@@ -213,6 +215,21 @@ def run(st, tier, seed):
             if diff is not None:
                 res.violations.append({"what": "zero-length insertion (%s) changes what the PIL denotes for other objects (%s #%d)" % (place, diff["field"], diff["index"]),
                                        "input": inp, "expected": diff["source_denotes"], "observed": diff["output_denotes"], "sig": "C14:changed:" + diff["field"], "cmd": cmd})
+        # --fixed: fixing the object that received the zero-length item (its empty slice is handed to the zero-length member)
+        # must work exactly as without the item
+        tgt = ast2.get("_target") if (i % 15 != 4 and isinstance(ast2, dict)) else None
+        if tgt and b.entry == "top" and not any(k.endswith(".sys") for k in b.texts):
+            import re as _re
+            mm = _re.search(r"^(?:strand(?: \[dummy\])?|sup-sequence|sequence) %s = .* : (\d+)$" % _re.escape(tgt[1]), r1["text"], flags=_re.M)
+            if mm and int(mm.group(1)) > 0:
+                ftxt = "%s %s = %s\n" % ("strand" if tgt[0] == "strand" else "sequence", tgt[1],
+                                         "".join(rng.choice("NNNS") if rng.random() < 0.7 else "N" for _ in range(int(mm.group(1)))))
+                f1, f2 = impl.compile_bundle(b, "pil", fixed_text=ftxt), impl.compile_bundle(b2, "pil", fixed_text=ftxt)
+                res.count("with-fixed-file")
+                if f1["ok"] != f2["ok"]:
+                    res.violations.append({"what": "with zero-length objects inserted (%s), fixing %s %s with --fixed %s" % (
+                                               place, tgt[0], tgt[1], "fails (%s) although it works without them" % f2.get("exc") if f1["ok"] else "works although it fails without them"),
+                                           "input": dict(inp, fixed=ftxt), "sig": "C14:fixed", "cmd": "pepper-compiler --fixed fixed.fix top"})
         # .des back-end
         q1, q2 = impl.compile_bundle(b, "des"), impl.compile_bundle(b2, "des")
         if place != "beside-wildcard" and q1["ok"] and q2["ok"] and canon_text(q1["text"]) != canon_text(q2["text"]):
